@@ -51,6 +51,7 @@ InitFrom == /\ kind = KindSeq[Hdr.ki] /\ cls = ClsSeq[Hdr.ci]
             /\ gen = value /\ loads = value /\ armed = {}
             /\ sealed = FALSE /\ snapRoot = None
             /\ sslot = [m \in M |-> Empty] /\ sdict = [m \in M |-> Empty] /\ shn = [m \in M |-> {}]
+            /\ sage = 0 /\ smir = [m \in M |-> [n \in Names |-> Absent]]
             /\ ret = NoRet /\ loadedNow = {} /\ abs = IAbs /\ stale = {}
 
 TInit == /\ tid \in 1..Len(Traces) /\ TLCSet(tid, 0) /\ l = 1
